@@ -9,6 +9,7 @@ import (
 	"sort"
 	"strconv"
 	"strings"
+	"unicode"
 )
 
 // ---- C09/backup: typestate of the scanner's one-rune back-up.
@@ -27,6 +28,7 @@ type backupClient struct {
 
 type tokenSite struct {
 	lit    *ast.CompositeLit
+	ctx    string // in-place call context of the literal ("" = written in Scan itself)
 	kind   string
 	first  []string // characters of the enclosing dispatch clause (from `c == 'x'` disjuncts)
 	second secondInfo
@@ -39,6 +41,35 @@ type secondInfo struct {
 	okFalse bool     //
 	eq      string   // known value of the look-ahead rune ("" unknown)
 	ne      []string // excluded values
+}
+
+// Inline (table extraction for Scan only): loop-free helpers that build a token are interpreted in place, so a
+// token literal shared by several dispatch clauses is seen once per clause with its parameters bound.
+func (c *backupClient) Inline(e *Engine, call *ast.CallExpr, callee *types.Func, decl *ast.FuncDecl) bool {
+	if c.tokenT == nil || callee == c.next || callee == c.prev || !smallBody(decl) {
+		return false
+	}
+	sig := callee.Type().(*types.Signature)
+	if sig.Results().Len() != 1 || !types.Identical(sig.Results().At(0).Type(), c.tokenT) {
+		return false
+	}
+	loops := false
+	ast.Inspect(decl.Body, func(n ast.Node) bool {
+		switch n.(type) {
+		case *ast.ForStmt, *ast.RangeStmt:
+			loops = true
+		}
+		return true
+	})
+	return !loops
+}
+
+// where: the function (and in-place call context) a call sits in, with its ordinal among the prev() calls there.
+func (c *backupClient) where(e *Engine) string {
+	if k := e.FrameKey(); k != "" {
+		return c.fn + " > " + k
+	}
+	return c.fn
 }
 
 func (c *backupClient) recvKey(e *Engine, call *ast.CallExpr) (string, bool) {
@@ -73,7 +104,7 @@ func (c *backupClient) PreCall(e *Engine, st *State, call *ast.CallExpr, callee 
 		return nil
 	}
 	rk, _ := c.recvKey(e, call)
-	key := fmt.Sprintf("%s prev() #%d", c.fn, c.ordinal(e, call))
+	key := fmt.Sprintf("%s prev() #%d", c.where(e), c.ordinal(e, call))
 	last := st.Ext("lastnext:" + rk)
 	switch {
 	case last == "":
@@ -95,7 +126,7 @@ func (c *backupClient) PreCall(e *Engine, st *State, call *ast.CallExpr, callee 
 
 func (c *backupClient) ordinal(e *Engine, call *ast.CallExpr) int {
 	n, idx := 0, 0
-	ast.Inspect(e.Func.Body, func(x ast.Node) bool {
+	ast.Inspect(e.CurFunc().Body, func(x ast.Node) bool {
 		if cc, ok := x.(*ast.CallExpr); ok && Callee(e.Info, cc) == c.prev {
 			n++
 			if cc == call {
@@ -116,7 +147,11 @@ func (c *backupClient) PostCall(e *Engine, st *State, call *ast.CallExpr, callee
 	case c.next:
 		st = st.WithExt("lastnext:"+rk, "ignored")
 		st = st.WithExt("lastnextval:"+rk, "")
-		return st.WithExt("lastnextpos:"+rk, strconv.Itoa(int(call.Pos())))
+		pos := call.Pos()
+		if fr := e.Frames(); len(fr) > 0 {
+			pos = fr[0].Call.Pos() // a look-ahead inside a helper counts for the clause that called the helper
+		}
+		return st.WithExt("lastnextpos:"+rk, strconv.Itoa(int(pos)))
 	case c.prev:
 		return st.WithExt("lastnext:"+rk, "after:prev()")
 	default:
@@ -156,23 +191,49 @@ func (c *backupClient) Visit(e *Engine, st *State, n ast.Node) *State {
 	if kindE == nil {
 		return nil
 	}
-	site := tokenSite{lit: cl, kind: constName(e.Info, kindE)}
-	// enclosing dispatch clause
+	site := tokenSite{lit: cl, ctx: e.FrameKey(), kind: constName(e.Info, kindE)}
+	if site.kind == "" {
+		// the kind is a parameter of a helper: its value on this path
+		if f := e.FactOf(st, kindE); f != nil && f.HasEq {
+			site.kind = c.p.constNameByValue(c.p.Parser, "TokenKind", f.Eq)
+		}
+	}
+	if !docPunctKind(site.kind) {
+		// error tokens and the tokens of the sub-scanners (identifiers, numbers, strings) are not entries of the
+		// documented operator table (C09/classes, C09/lookahead cover them); a documented lexeme that stops
+		// yielding its kind is still reported by the `produces` obligations
+		return nil
+	}
+	// enclosing dispatch clause (of the call that led here, for a literal inside a helper)
 	var clause *ast.CaseClause
-	e.P.ancestors(cl, e.Func, func(anc, _ ast.Node) bool {
+	var from ast.Node = cl
+	if fr := e.Frames(); len(fr) > 0 {
+		from = fr[0].Call
+	}
+	e.P.ancestors(from, e.Func, func(anc, _ ast.Node) bool {
 		if cc, ok := anc.(*ast.CaseClause); ok {
 			clause = cc // keep the outermost
 		}
 		return true
 	})
 	if clause != nil {
+		var cmpVar ast.Expr
 		for _, ce := range clause.List {
 			for _, d := range disjuncts(ce) {
 				if b, ok := d.(*ast.BinaryExpr); ok && b.Op == token.EQL {
 					if v := constOf(e.Info, b.Y); v != nil && v.Kind() == constant.Int {
 						n, _ := constant.Int64Val(v)
 						site.first = append(site.first, string(rune(n)))
+						cmpVar = b.X
 					}
+				}
+			}
+		}
+		// a clause for several characters: the path facts say which one this state is about
+		if len(site.first) > 1 && cmpVar != nil {
+			if f := e.FactOf(st, cmpVar); f != nil && f.HasEq {
+				if n, ok := parseInt(f.Eq); ok {
+					site.first = []string{string(rune(n))}
 				}
 			}
 		}
@@ -189,22 +250,26 @@ func (c *backupClient) Visit(e *Engine, st *State, n ast.Node) *State {
 		}
 		site.second.looked = true
 		last := st.Ext("lastnext:" + rk)
-		if f := st.Get(last); f != nil && f.HasEq {
-			site.second.okTrue = f.Eq == "true"
-			site.second.okFalse = f.Eq == "false"
-		}
 		if strings.HasPrefix(last, "after:prev") {
 			site.backed = true
-			// the ok variable is still known through the remembered key
-			if okKey := st.Ext("lastok:" + rk); okKey != "" {
-				if f := st.Get(okKey); f != nil && f.HasEq {
-					site.second.okTrue = f.Eq == "true"
-					site.second.okFalse = f.Eq == "false"
-				}
+		}
+		// the ok flag of the look-ahead: live fact, or what was known when the variable went out of scope
+		if okKey := st.Ext("lastok:" + rk); okKey != "" {
+			f := st.Get(okKey)
+			if f == nil {
+				f = snapFact(st, "lastok:"+rk)
+			}
+			if f != nil && f.HasEq {
+				site.second.okTrue = f.Eq == "true"
+				site.second.okFalse = f.Eq == "false"
 			}
 		}
 		if vk := st.Ext("lastnextval:" + rk); vk != "" {
-			if f := st.Get(vk); f != nil {
+			f := st.Get(vk)
+			if f == nil {
+				f = snapFact(st, "lastnextval:"+rk)
+			}
+			if f != nil {
 				if f.HasEq {
 					site.second.eq = f.Eq
 				}
@@ -214,6 +279,56 @@ func (c *backupClient) Visit(e *Engine, st *State, n ast.Node) *State {
 	}
 	c.literals = append(c.literals, site)
 	return nil
+}
+
+// ScopeEnd: what is known about the most recent look-ahead (its ok flag, the rune) is kept when the variables
+// holding them go out of scope (`if c, ok := s.next(); ok {...}` followed by the token literal).
+func (c *backupClient) ScopeEnd(e *Engine, st *State, n ast.Node) *State {
+	if c.tokenT == nil {
+		return nil
+	}
+	lo, hi := e.P.Fset.Position(n.Pos()).Offset, e.P.Fset.Position(n.End()).Offset
+	st = c.Stmt(e, st, nil) // bring the remembered ok variable up to date first
+	out := st
+	for k, v := range st.ext {
+		if !strings.HasPrefix(k, "lastok:") && !strings.HasPrefix(k, "lastnextval:") {
+			continue
+		}
+		if v == "" || !extMentionsScope(v, lo, hi) {
+			continue
+		}
+		f := st.Get(v)
+		if f == nil {
+			continue
+		}
+		snap := ""
+		if f.HasEq {
+			snap = "=" + f.Eq
+		}
+		for _, ne := range f.Ne {
+			snap += "|!" + ne
+		}
+		out = out.WithExt("snap:"+k, snap)
+	}
+	return out
+}
+
+// snapFact rebuilds the fact remembered by ScopeEnd for the ext entry k.
+func snapFact(st *State, k string) *Fact {
+	s := st.Ext("snap:" + k)
+	if s == "" {
+		return nil
+	}
+	f := &Fact{}
+	for _, part := range strings.Split(s, "|") {
+		switch {
+		case strings.HasPrefix(part, "="):
+			f.HasEq, f.Eq = true, part[1:]
+		case strings.HasPrefix(part, "!"):
+			f.Ne = append(f.Ne, part[1:])
+		}
+	}
+	return f
 }
 
 // remember the ok variable across prev() so that the table rule can still see it
@@ -286,6 +401,22 @@ var docTwoChar = map[string]map[string]string{
 
 var docKeywords = map[string]string{"and": "TokenAnd", "or": "TokenOr", "in": "TokenIn", "by": "TokenBy"}
 
+func docPunctKind(kind string) bool {
+	for _, k := range docOneChar {
+		if k == kind {
+			return true
+		}
+	}
+	for _, fam := range docTwoChar {
+		for _, k := range fam {
+			if k == kind {
+				return true
+			}
+		}
+	}
+	return false
+}
+
 func runeKey(s string) string { return strconv.Itoa(int([]rune(s)[0])) }
 
 func ruleC09Dispatch(p *Program, r *Run, sites []tokenSite) {
@@ -296,14 +427,16 @@ func ruleC09Dispatch(p *Program, r *Run, sites []tokenSite) {
 		pos    token.Pos
 		states []tokenSite
 	}
-	byLit := map[*ast.CompositeLit]*agg{}
-	var order []*ast.CompositeLit
+	// one group per (literal, in-place call context, dispatch character, kind)
+	byLit := map[string]*agg{}
+	var order []string
 	for _, s := range sites {
-		a := byLit[s.lit]
+		gk := fmt.Sprintf("%d|%s|%s|%s", s.lit.Pos(), s.ctx, strings.Join(s.first, ""), s.kind)
+		a := byLit[gk]
 		if a == nil {
 			a = &agg{pos: s.lit.Pos()}
-			byLit[s.lit] = a
-			order = append(order, s.lit)
+			byLit[gk] = a
+			order = append(order, gk)
 		}
 		a.states = append(a.states, s)
 	}
@@ -515,41 +648,154 @@ func ruleC09Dispatch(p *Program, r *Run, sites []tokenSite) {
 
 // evalRunePred evaluates a single-return boolean predicate over one rune argument.
 func evalRunePred(p *Program, fd *ast.FuncDecl, c rune, depth int) (bool, bool) {
-	if depth > 4 || len(fd.Body.List) != 1 || fd.Type.Params.NumFields() != 1 {
+	if fd.Type.Params.NumFields() != 1 {
 		return false, false
 	}
-	ret, ok := fd.Body.List[0].(*ast.ReturnStmt)
-	if !ok || len(ret.Results) != 1 {
+	return evalPredicate(p, fd, []int64{int64(c)}, depth)
+}
+
+// evalPredicate evaluates a side-effect-free boolean function over integer (rune/byte) arguments: straight-line
+// definitions, if/else, switch and return; comparisons, arithmetic and calls of other such predicates
+// (and of the unicode class predicates). ok is false if the body uses anything else.
+func evalPredicate(p *Program, fd *ast.FuncDecl, args []int64, depth int) (result bool, ok bool) {
+	if depth > 6 || fd == nil || fd.Body == nil {
 		return false, false
 	}
-	info := p.Parser.TypesInfo
-	param := info.Defs[fd.Type.Params.List[0].Names[0]]
+	info := p.Info
+	env := map[types.Object]int64{}
+	benv := map[types.Object]bool{}
+	i := 0
+	for _, f := range fd.Type.Params.List {
+		for _, n := range f.Names {
+			if i < len(args) {
+				env[info.Defs[n]] = args[i]
+			}
+			i++
+		}
+	}
+	if i != len(args) {
+		return false, false
+	}
 	var evalB func(e ast.Expr) (bool, bool)
-	evalI := func(e ast.Expr) (int64, bool) {
+	var evalI func(e ast.Expr) (int64, bool)
+	evalI = func(e ast.Expr) (int64, bool) {
+		e = ast.Unparen(e)
 		if v := constOf(info, e); v != nil {
 			n, ok := constant.Int64Val(constant.ToInt(v))
 			return n, ok
 		}
-		if objOf(info, e) == param {
-			return int64(c), true
+		switch x := e.(type) {
+		case *ast.Ident:
+			v, ok := env[objOf(info, x)]
+			return v, ok
+		case *ast.UnaryExpr:
+			if v, ok := evalI(x.X); ok {
+				switch x.Op {
+				case token.SUB:
+					return -v, true
+				case token.ADD:
+					return v, true
+				case token.XOR:
+					return ^v, true
+				}
+			}
+		case *ast.BinaryExpr:
+			a, ok1 := evalI(x.X)
+			b, ok2 := evalI(x.Y)
+			if !ok1 || !ok2 {
+				return 0, false
+			}
+			// arithmetic in the operand type's width (byte, rune, int)
+			wrap := func(v int64) int64 {
+				if t, ok := info.TypeOf(x).Underlying().(*types.Basic); ok {
+					switch t.Kind() {
+					case types.Uint8:
+						return int64(uint8(v))
+					case types.Int32:
+						return int64(int32(v))
+					case types.Uint32:
+						return int64(uint32(v))
+					case types.Uint16:
+						return int64(uint16(v))
+					}
+				}
+				return v
+			}
+			switch x.Op {
+			case token.ADD:
+				return wrap(a + b), true
+			case token.SUB:
+				return wrap(a - b), true
+			case token.MUL:
+				return wrap(a * b), true
+			case token.OR:
+				return wrap(a | b), true
+			case token.AND:
+				return wrap(a & b), true
+			case token.XOR:
+				return wrap(a ^ b), true
+			case token.AND_NOT:
+				return wrap(a &^ b), true
+			case token.SHL:
+				if b >= 0 && b < 63 {
+					return wrap(a << uint(b)), true
+				}
+			case token.SHR:
+				if b >= 0 && b < 63 {
+					return wrap(a >> uint(b)), true
+				}
+			case token.QUO:
+				if b != 0 {
+					return wrap(a / b), true
+				}
+			case token.REM:
+				if b != 0 {
+					return wrap(a % b), true
+				}
+			}
+		case *ast.CallExpr:
+			if tv, ok := info.Types[x.Fun]; ok && tv.IsType() && len(x.Args) == 1 {
+				v, ok := evalI(x.Args[0])
+				if !ok {
+					return 0, false
+				}
+				if t, ok := tv.Type.Underlying().(*types.Basic); ok {
+					switch t.Kind() {
+					case types.Uint8:
+						return int64(uint8(v)), true
+					case types.Int32, types.Int, types.Int64, types.UntypedRune:
+						return v, true
+					case types.Uint32:
+						return int64(uint32(v)), true
+					}
+				}
+			}
 		}
 		return 0, false
 	}
 	evalB = func(e ast.Expr) (bool, bool) {
 		e = ast.Unparen(e)
+		if v := constOf(info, e); v != nil && v.Kind() == constant.Bool {
+			return constant.BoolVal(v), true
+		}
 		switch x := e.(type) {
+		case *ast.Ident:
+			v, ok := benv[objOf(info, x)]
+			return v, ok
 		case *ast.BinaryExpr:
 			switch x.Op {
 			case token.LAND, token.LOR:
 				a, ok1 := evalB(x.X)
-				b, ok2 := evalB(x.Y)
-				if !ok1 || !ok2 {
+				if !ok1 {
 					return false, false
 				}
-				if x.Op == token.LAND {
-					return a && b, true
+				if x.Op == token.LAND && !a {
+					return false, true
 				}
-				return a || b, true
+				if x.Op == token.LOR && a {
+					return true, true
+				}
+				return evalB(x.Y)
 			case token.LEQ, token.LSS, token.GEQ, token.GTR, token.EQL, token.NEQ:
 				a, ok1 := evalI(x.X)
 				b, ok2 := evalI(x.Y)
@@ -578,18 +824,158 @@ func evalRunePred(p *Program, fd *ast.FuncDecl, c rune, depth int) (bool, bool) 
 			}
 		case *ast.CallExpr:
 			f := Callee(info, x)
-			if f == nil || len(x.Args) != 1 || objOf(info, x.Args[0]) != param {
+			if f == nil {
 				return false, false
 			}
-			fd2 := p.FuncDecl(p.Parser, f.Name())
+			var vals []int64
+			for _, a := range x.Args {
+				v, ok := evalI(a)
+				if !ok {
+					return false, false
+				}
+				vals = append(vals, v)
+			}
+			if f.Pkg() != nil && f.Pkg().Path() == "unicode" && len(vals) == 1 {
+				r := rune(vals[0])
+				switch f.Name() {
+				case "IsLetter":
+					return unicode.IsLetter(r), true
+				case "IsDigit":
+					return unicode.IsDigit(r), true
+				case "IsSpace":
+					return unicode.IsSpace(r), true
+				case "IsUpper":
+					return unicode.IsUpper(r), true
+				case "IsLower":
+					return unicode.IsLower(r), true
+				}
+				return false, false
+			}
+			fd2, _ := p.DeclOf(f)
 			if fd2 == nil {
 				return false, false
 			}
-			return evalRunePred(p, fd2, c, depth+1)
+			return evalPredicate(p, fd2, vals, depth+1)
 		}
 		return false, false
 	}
-	return evalB(ret.Results[0])
+	// statements: returns (value, returned, ok)
+	var exec func(list []ast.Stmt) (bool, bool, bool)
+	exec = func(list []ast.Stmt) (bool, bool, bool) {
+		for _, st := range list {
+			switch s := st.(type) {
+			case *ast.ReturnStmt:
+				if len(s.Results) != 1 {
+					return false, false, false
+				}
+				v, ok := evalB(s.Results[0])
+				return v, true, ok
+			case *ast.BlockStmt:
+				if v, ret, ok := exec(s.List); !ok || ret {
+					return v, ret, ok
+				}
+			case *ast.AssignStmt:
+				if len(s.Lhs) != 1 || len(s.Rhs) != 1 || (s.Tok != token.DEFINE && s.Tok != token.ASSIGN) {
+					return false, false, false
+				}
+				o := objOf(info, s.Lhs[0])
+				if o == nil {
+					return false, false, false
+				}
+				if v, ok := evalI(s.Rhs[0]); ok {
+					env[o] = v
+				} else if b, ok := evalB(s.Rhs[0]); ok {
+					benv[o] = b
+				} else {
+					return false, false, false
+				}
+			case *ast.IfStmt:
+				if s.Init != nil {
+					if _, _, ok := exec([]ast.Stmt{s.Init}); !ok {
+						return false, false, false
+					}
+				}
+				cv, ok := evalB(s.Cond)
+				if !ok {
+					return false, false, false
+				}
+				if cv {
+					if v, ret, ok := exec(s.Body.List); !ok || ret {
+						return v, ret, ok
+					}
+				} else if s.Else != nil {
+					if v, ret, ok := exec([]ast.Stmt{s.Else}); !ok || ret {
+						return v, ret, ok
+					}
+				}
+			case *ast.SwitchStmt:
+				if s.Init != nil {
+					if _, _, ok := exec([]ast.Stmt{s.Init}); !ok {
+						return false, false, false
+					}
+				}
+				var tag int64
+				if s.Tag != nil {
+					t, ok := evalI(s.Tag)
+					if !ok {
+						return false, false, false
+					}
+					tag = t
+				}
+				var chosen, dflt *ast.CaseClause
+				for _, cs := range s.Body.List {
+					cc := cs.(*ast.CaseClause)
+					if cc.List == nil {
+						dflt = cc
+						continue
+					}
+					for _, ce := range cc.List {
+						hit := false
+						if s.Tag != nil {
+							v, ok := evalI(ce)
+							if !ok {
+								return false, false, false
+							}
+							hit = v == tag
+						} else {
+							v, ok := evalB(ce)
+							if !ok {
+								return false, false, false
+							}
+							hit = v
+						}
+						if hit && chosen == nil {
+							chosen = cc
+						}
+					}
+					if chosen != nil {
+						break
+					}
+				}
+				if chosen == nil {
+					chosen = dflt
+				}
+				if chosen != nil {
+					for _, b := range chosen.Body {
+						if br, ok := b.(*ast.BranchStmt); ok && br.Tok == token.FALLTHROUGH {
+							return false, false, false
+						}
+					}
+					if v, ret, ok := exec(chosen.Body); !ok || ret {
+						return v, ret, ok
+					}
+				}
+			default:
+				return false, false, false
+			}
+		}
+		return false, false, true
+	}
+	v, ret, ok := exec(fd.Body.List)
+	if !ok || !ret {
+		return false, false
+	}
+	return v, true
 }
 
 // ---- C09/spans: token span shape.
@@ -613,61 +999,142 @@ func ruleC09Spans(p *Program, r *Run) {
 		}
 		return types.Identical(t, scannerT)
 	}
-	for _, fd := range AllFuncs(pkg) {
-		if !strings.HasSuffix(p.Fset.Position(fd.Pos()).Filename, "lex.go") {
-			continue
+	// definitions of locals, per function
+	type fnDefs struct {
+		defs    map[types.Object][]ast.Expr
+		defStmt map[types.Object][]*ast.AssignStmt
+	}
+	allDefs := map[*ast.FuncDecl]*fnDefs{}
+	defsOf := func(fd *ast.FuncDecl) *fnDefs {
+		if d := allDefs[fd]; d != nil {
+			return d
 		}
-		fn := FuncName(pkg, fd)
-		// definitions of local ints: name -> all RHS
-		defs := map[types.Object][]ast.Expr{}
-		defStmt := map[types.Object][]*ast.AssignStmt{}
+		d := &fnDefs{defs: map[types.Object][]ast.Expr{}, defStmt: map[types.Object][]*ast.AssignStmt{}}
 		ast.Inspect(fd.Body, func(n ast.Node) bool {
 			if as, ok := n.(*ast.AssignStmt); ok && len(as.Lhs) == len(as.Rhs) {
 				for i, l := range as.Lhs {
 					if o := objOf(info, l); o != nil {
-						defs[o] = append(defs[o], as.Rhs[i])
-						defStmt[o] = append(defStmt[o], as)
+						d.defs[o] = append(d.defs[o], as.Rhs[i])
+						d.defStmt[o] = append(d.defStmt[o], as)
 					}
 				}
 			}
 			return true
 		})
-		// savedPos: a local whose every definition is s.pos
-		savedPos := func(e ast.Expr) bool {
-			if isScannerPos(e) {
-				return true
-			}
-			o := objOf(info, e)
-			if o == nil || len(defs[o]) == 0 {
-				return false
-			}
-			for _, d := range defs[o] {
-				if !isScannerPos(d) {
-					return false
+		allDefs[fd] = d
+		return d
+	}
+	// call sites of the lexer's unexported helpers: parameter -> arguments (with the calling function)
+	type argSite struct {
+		fd  *ast.FuncDecl
+		arg ast.Expr
+	}
+	paramArgs := func(param types.Object) ([]argSite, bool) {
+		fd := p.FuncAt(param.Pos())
+		if fd == nil {
+			return nil, false
+		}
+		fn := FuncObj(pkg, fd)
+		if !p.onlyCalledDirectly(fn) {
+			return nil, false
+		}
+		idx, i := -1, 0
+		for _, f := range fd.Type.Params.List {
+			for _, n := range f.Names {
+				if info.Defs[n] == param {
+					idx = i
 				}
+				i++
 			}
+		}
+		if idx < 0 || !p.neverReassigned(param) {
+			return nil, false
+		}
+		var out []argSite
+		for _, caller := range AllFuncs(pkg) {
+			ast.Inspect(caller.Body, func(n ast.Node) bool {
+				if call, ok := n.(*ast.CallExpr); ok && Callee(info, call) == fn && idx < len(call.Args) {
+					out = append(out, argSite{caller, call.Args[idx]})
+				}
+				return true
+			})
+		}
+		return out, len(out) > 0
+	}
+	var savedPosIn, isStartIn func(fd *ast.FuncDecl, e ast.Expr, depth int) bool
+	// savedPos: the scanner position, a local whose every definition is s.pos, or a parameter that is one at every call
+	savedPosIn = func(fd *ast.FuncDecl, e ast.Expr, depth int) bool {
+		if isScannerPos(e) {
 			return true
 		}
-		// startVar: saved position taken as the first statement of the function body or of the enclosing loop body
-		isStart := func(e ast.Expr) bool {
-			o := objOf(info, e)
-			if o == nil || len(defs[o]) != 1 || !isScannerPos(defs[o][0]) {
-				return false
-			}
-			as := defStmt[o][0]
-			switch parent := p.Parent(as).(type) {
-			case *ast.BlockStmt:
-				if len(parent.List) > 0 && parent.List[0] == ast.Stmt(as) {
-					switch gp := p.Parent(parent).(type) {
-					case *ast.FuncDecl:
-						return true
-					case *ast.ForStmt:
-						return gp.Body == parent
+		o := objOf(info, e)
+		if o == nil || depth > 3 {
+			return false
+		}
+		d := defsOf(fd)
+		if len(d.defs[o]) == 0 {
+			if sites, ok := paramArgs(o); ok {
+				for _, s := range sites {
+					if !savedPosIn(s.fd, s.arg, depth+1) {
+						return false
 					}
 				}
+				return true
 			}
 			return false
 		}
+		for _, df := range d.defs[o] {
+			if !isScannerPos(df) {
+				return false
+			}
+		}
+		return true
+	}
+	// start: the position saved as the first statement of the function body or of the enclosing loop body
+	// (or a parameter that is such a position at every call)
+	isStartIn = func(fd *ast.FuncDecl, e ast.Expr, depth int) bool {
+		o := objOf(info, e)
+		if o == nil || depth > 3 {
+			return false
+		}
+		d := defsOf(fd)
+		if len(d.defs[o]) == 0 {
+			if sites, ok := paramArgs(o); ok {
+				for _, s := range sites {
+					if !isStartIn(s.fd, s.arg, depth+1) {
+						return false
+					}
+				}
+				return true
+			}
+			return false
+		}
+		if len(d.defs[o]) != 1 || !isScannerPos(d.defs[o][0]) {
+			return false
+		}
+		as := d.defStmt[o][0]
+		switch parent := p.Parent(as).(type) {
+		case *ast.BlockStmt:
+			if len(parent.List) > 0 && parent.List[0] == ast.Stmt(as) {
+				switch gp := p.Parent(parent).(type) {
+				case *ast.FuncDecl:
+					return true
+				case *ast.ForStmt:
+					return gp.Body == parent
+				}
+			}
+		}
+		return false
+	}
+	for _, fd := range AllFuncs(pkg) {
+		if !strings.HasSuffix(p.Fset.Position(fd.Pos()).Filename, "lex.go") {
+			continue
+		}
+		fd := fd
+		fn := FuncName(pkg, fd)
+		defs := defsOf(fd).defs
+		savedPos := func(e ast.Expr) bool { return savedPosIn(fd, e, 0) }
+		isStart := func(e ast.Expr) bool { return isStartIn(fd, e, 0) }
 		var okSpan func(e ast.Expr, depth int) (bool, string)
 		okSpan = func(e ast.Expr, depth int) (bool, string) {
 			e = ast.Unparen(e)
@@ -887,89 +1354,50 @@ func ruleC09Escapes(p *Program, r *Run) {
 	fd := p.MustFunc(pkg, "scanner.string")
 	fn := FuncName(pkg, fd)
 	r.Saw(fn)
-	// the switch on the rune read directly after a backslash: the innermost switch inside `case '\\':`
-	var escSw *ast.SwitchStmt
-	ast.Inspect(fd.Body, func(n ast.Node) bool {
-		cc, ok := n.(*ast.CaseClause)
-		if !ok {
-			return true
-		}
-		isBackslash := false
-		for _, e := range cc.List {
-			if v, ok := constInt(info, e); ok && v == '\\' {
-				isBackslash = true
-			}
-		}
-		if !isBackslash {
-			return true
-		}
-		ast.Inspect(cc, func(m ast.Node) bool {
-			if sw, ok := m.(*ast.SwitchStmt); ok && sw != nil && escSw == nil && sw.Tag != nil {
-				escSw = sw
-			}
-			return true
-		})
-		return false
-	})
-	if escSw == nil {
-		r.Fail("C09/escapes", fn+" escape switch", p.Pos(fd.Pos()), "no switch on the character after a backslash found: escape sequences are not decoded by a recognisable table")
+	// Decided on path facts: wherever one rune is written into the value while the rune read before the most recent
+	// one is known to be a backslash, the rune just read says which escape this is and the written value what it
+	// decodes to - whatever the shape of the decoding code (nested switch, helper, table of ifs).
+	ec := &escapeClient{next: FuncObj(pkg, p.MustFunc(pkg, "scanner.next")), got: map[string]map[string]bool{}}
+	eng := NewEngine(p, pkg, fd, ec)
+	eng.Run(nil)
+	for _, m := range eng.Errs {
+		r.Fail("C09/escapes", fn+" engine", "-", m)
+	}
+	if len(ec.got) == 0 {
+		r.Fail("C09/escapes", fn+" escape decoding", p.Pos(fd.Pos()), "no rune is ever written into the value after a backslash was read: escape sequences are not decoded")
 		return
 	}
 	want := map[string]string{"n": "\n", "t": "\t"}
-	got := map[string]string{}
-	dfltSelf := false
-	nlErr := false
-	for _, c := range escSw.Body.List {
-		cc := c.(*ast.CaseClause)
-		var wrote *ast.CallExpr
-		returns := false
-		for _, s := range cc.Body {
-			ast.Inspect(s, func(m ast.Node) bool {
-				if call, ok := m.(*ast.CallExpr); ok {
-					if sel, ok := call.Fun.(*ast.SelectorExpr); ok && strings.HasPrefix(sel.Sel.Name, "Write") {
-						wrote = call
-					}
-				}
-				if _, ok := m.(*ast.ReturnStmt); ok {
-					returns = true
-				}
-				return true
-			})
+	render := func(m map[string]bool) string {
+		var ks []string
+		for k := range m {
+			ks = append(ks, k)
 		}
-		if cc.List == nil {
-			if wrote != nil && len(wrote.Args) == 1 && sameExpr(info, wrote.Args[0], escSw.Tag) {
-				dfltSelf = true
-			}
-			continue
-		}
-		for _, e := range cc.List {
-			v, ok := constInt(info, e)
-			if !ok {
-				continue
-			}
-			if v == '\n' && returns {
-				nlErr = true
-				continue
-			}
-			if wrote != nil && len(wrote.Args) == 1 {
-				if w, ok := constInt(info, wrote.Args[0]); ok {
-					got[string(rune(v))] = string(rune(w))
-				} else {
-					got[string(rune(v))] = "?" + exprStr(wrote.Args[0])
-				}
-			}
-		}
+		sort.Strings(ks)
+		return strings.Join(ks, ",")
 	}
 	for _, k := range []string{"n", "t"} {
-		r.Check(got[k] == want[k], "C09/escapes", fmt.Sprintf("%s escape \\%s", fn, k), p.Pos(escSw.Pos()), fmt.Sprintf("decodes to %q", want[k]), fmt.Sprintf("the escape \\%s decodes to %q, documented %q", k, got[k], want[k]))
+		g := ec.got[k]
+		r.Check(len(g) == 1 && g["="+want[k]], "C09/escapes", fmt.Sprintf("%s escape \\%s", fn, k), p.Pos(fd.Pos()), fmt.Sprintf("decodes to %q", want[k]), fmt.Sprintf("the escape \\%s decodes to {%s}, documented %q", k, render(g), want[k]))
 	}
-	for k, v := range got {
-		if _, ok := want[k]; !ok {
-			r.Fail("C09/escapes", fmt.Sprintf("%s escape \\%s", fn, k), p.Pos(escSw.Pos()), fmt.Sprintf("undocumented escape \\%s -> %q", k, v))
+	var others []string
+	for k := range ec.got {
+		if k != "n" && k != "t" && k != "*" {
+			others = append(others, k)
 		}
 	}
-	r.Check(dfltSelf, "C09/escapes", fn+" any other escaped character", p.Pos(escSw.Pos()), "stands for itself (so \\\" \\' \\\\ work)", "an escaped character that is not n or t does not stand for itself")
-	r.Check(nlErr, "C09/escapes", fn+" backslash before a newline", p.Pos(escSw.Pos()), "is an unterminated string (strings are one-line)", "a backslash directly before a newline does not end the token with an error")
+	sort.Strings(others)
+	for _, k := range others {
+		if k == "\n" {
+			continue
+		}
+		if g := ec.got[k]; !(len(g) == 1 && g["self"]) {
+			r.Fail("C09/escapes", fmt.Sprintf("%s escape \\%s", fn, k), p.Pos(fd.Pos()), fmt.Sprintf("undocumented escape \\%s -> {%s}", k, render(g)))
+		}
+	}
+	dflt := ec.got["*"]
+	r.Check(len(dflt) == 1 && dflt["self"], "C09/escapes", fn+" any other escaped character", p.Pos(fd.Pos()), "stands for itself (so \\\" \\' \\\\ work)", fmt.Sprintf("an escaped character that is not n or t does not stand for itself: {%s}", render(dflt)))
+	r.Check(len(ec.got["\n"]) == 0 && ec.nlReturn, "C09/escapes", fn+" backslash before a newline", p.Pos(fd.Pos()), "is an unterminated string (strings are one-line)", "a backslash directly before a newline does not end the token with an error")
 	r.Floor("C09/escapes", 4)
 
 	// quotedIdent: Value = ReplaceAll(text between the backticks, "``", "`")
@@ -985,7 +1413,10 @@ func ruleC09Escapes(p *Program, r *Run) {
 			return true
 		}
 		v := litField(info, cl, "Value")
-		call, isCall := ast.Unparen(orIdent(v)).(*ast.CallExpr)
+		if v == nil {
+			return true
+		}
+		call, isCall := p.DefExpr(v).(*ast.CallExpr)
 		if !isCall || len(call.Args) != 3 {
 			return true
 		}
@@ -994,10 +1425,117 @@ func ruleC09Escapes(p *Program, r *Run) {
 		}
 		from, _ := constString(info, call.Args[1])
 		to, _ := constString(info, call.Args[2])
-		_, isSlice := ast.Unparen(call.Args[0]).(*ast.SliceExpr)
+		_, isSlice := p.DefExpr(call.Args[0]).(*ast.SliceExpr)
 		okUn = from == "``" && to == "`" && isSlice
 		return true
 	})
 	r.Check(okUn, "C09/unquote", FuncName(pkg, qd)+" value", p.Pos(qd.Pos()), "the text between the backticks with every doubled backtick reduced to one", "the value of a backtick-quoted identifier is not the enclosed text with `` reduced to `")
 	r.Floor("C09/unquote", 1)
+}
+
+// escapeClient observes single-rune writes into the decoded value of a string literal.
+type escapeClient struct {
+	BaseClient
+	InlinePure
+	next     *types.Func
+	got      map[string]map[string]bool // escaped character ("*" = any other) -> what is written ("=x" constant, "self", "?")
+	nlReturn bool                       // some return is reached with backslash + newline read and nothing written for it
+}
+
+func (c *escapeClient) isNext(e *Engine, rhs []ast.Expr) bool {
+	if len(rhs) != 1 {
+		return false
+	}
+	call, ok := ast.Unparen(rhs[0]).(*ast.CallExpr)
+	return ok && Callee(e.Info, call) == c.next
+}
+
+func (c *escapeClient) PreAssign(e *Engine, st *State, lhs, rhs []ast.Expr, _ ast.Stmt) *State {
+	if !c.isNext(e, rhs) || len(lhs) != 2 {
+		return nil
+	}
+	prev := ""
+	if k := st.Ext("esc:cur"); k != "" {
+		if f := st.GetVar(k); f != nil && f.HasEq {
+			prev = f.Eq
+		}
+	}
+	return st.WithExt("esc:prevEq", prev)
+}
+
+func (c *escapeClient) PostAssign(e *Engine, st *State, lhs, rhs []ast.Expr, _ ast.Stmt) *State {
+	if !c.isNext(e, rhs) || len(lhs) != 2 {
+		return nil
+	}
+	if o := objOf(e.Info, lhs[0]); o != nil {
+		return st.WithExt("esc:cur", e.objKey(o))
+	}
+	return st.WithExt("esc:cur", "")
+}
+
+func (c *escapeClient) escaped(st *State) (string, *Fact, bool) {
+	if st.Ext("esc:prevEq") != "92" {
+		return "", nil, false
+	}
+	cur := st.Ext("esc:cur")
+	if cur == "" {
+		return "", nil, false
+	}
+	f := st.GetVar(cur)
+	if f != nil && f.HasEq {
+		if n, ok := parseInt(f.Eq); ok {
+			return string(rune(n)), f, true
+		}
+	}
+	return "*", f, true
+}
+
+func (c *escapeClient) PreCall(e *Engine, st *State, call *ast.CallExpr, _ *types.Func) *State {
+	sel, ok := ast.Unparen(call.Fun).(*ast.SelectorExpr)
+	if !ok || (sel.Sel.Name != "WriteRune" && sel.Sel.Name != "WriteByte") || len(call.Args) != 1 || !e.Reporting() {
+		return nil
+	}
+	if t := e.Info.TypeOf(sel.X); t == nil || (TypeStr(t) != "*strings.Builder" && TypeStr(t) != "strings.Builder") {
+		return nil
+	}
+	ch, _, ok := c.escaped(st)
+	if !ok {
+		return nil
+	}
+	what := "?"
+	arg := call.Args[0]
+	if v, ok := constInt(e.Info, arg); ok {
+		what = "=" + string(rune(v))
+	} else if k := e.CanonSt(st, arg); k.OK {
+		cur := st.Ext("esc:cur")
+		target := cur
+		if a := st.Get("val:" + cur); a != nil && a.Alias != nil {
+			target = a.Alias.Key
+		}
+		if k.Key == cur || k.Key == target {
+			what = "self"
+		} else if f := st.Get(k.Key); f != nil && f.HasEq {
+			if n, ok := parseInt(f.Eq); ok {
+				what = "=" + string(rune(n))
+			}
+		}
+	}
+	if what != "self" {
+		if f := e.FactOf(st, arg); f != nil && f.HasEq && what == "?" {
+			if n, ok := parseInt(f.Eq); ok {
+				what = "=" + string(rune(n))
+			}
+		}
+	}
+	if c.got[ch] == nil {
+		c.got[ch] = map[string]bool{}
+	}
+	c.got[ch][what] = true
+	return nil
+}
+
+func (c *escapeClient) Return(e *Engine, st *State, ret *ast.ReturnStmt) {
+	if ch, _, ok := c.escaped(st); ok && ch == "\n" {
+		c.nlReturn = true
+	}
 }
